@@ -110,6 +110,8 @@ def case_tree(T, tree, algs, assume_nonsingular=False):
     for an in algs:
         if an == "default":
             check_slogdet(T, "slogdet()", A, M, lambda: cola.linalg.slogdet(A))
+            # the operator is a persistent value: asking again gives the same answer (and the matrix it represents is still M)
+            check_slogdet(T, "slogdet() again", A, M, lambda: cola.linalg.slogdet(A))
         elif an == "LU":
             check_slogdet(T, "slogdet(LU)", A, M, lambda: cola.linalg.slogdet(A, LU()))
         elif an == "logdet":
@@ -207,6 +209,7 @@ def case_krylov_logdet(T, which, n, max_iters=None, logdet_too=False, spectrum="
 
     def call():
         s, l = cola.linalg.slogdet(A, alg, Exact())
+        T.check(f"slogdet({which},Exact): the log-magnitude has a real dtype", np.dtype(getattr(l, "dtype", np.float64)).kind == 'f', f"{getattr(l, 'dtype', type(l))}")
         if logdet_too:
             T.eq("logdet==logabs", cola.linalg.logdet(A, alg, Exact()), l, dtype=False)
         if T.sym:
